@@ -25,6 +25,7 @@ static int seen_term[MAXT];
 static uint64_t rng[MAXT];
 static int nthreads;
 static int max_rounds_seen;
+static bool pingpong;
 
 static uint64_t trand(int t) { uint64_t& r = rng[t]; r ^= r << 13; r ^= r >> 7; r ^= r << 17; return r * 0x2545F4914F6CDD1Dull; }
 
@@ -52,11 +53,12 @@ static void worker(gsb::TerminationDetection& term, gsb::Barrier& bar, int n, in
       obs_store(&unreported[tid], 1);
       // processing a unit may create work for anybody (only while consuming work)
       if ((int)(trand(tid) % 100) < spawn_pct) {
-        int k = 1 + (int)(trand(tid) % 3);
+        int k = pingpong ? 1 : 1 + (int)(trand(tid) % 3);
         for (int j = 0; j < k; j++) {
           if (obs_load(&spawn_budget) <= 0) break;
           obs_add(&spawn_budget, -1L);
           int dst = (int)(trand(tid) % n);
+          if (pingpong && dst == tid) dst = (tid + 1) % n;
           mailbox[dst].fetch_add(1, std::memory_order_acq_rel);
           if (obs_add(&outstanding, 1L) == 0) { /* cannot happen: we still hold a unit */ }
         }
@@ -100,12 +102,16 @@ int main() {
   std::string plan;
   for (int l = 0; l < loops; l++) {
     int n = (int)wl_range(1, hw);
-    nthreads = n;
     int units = (int)wl_range(0, 30), spawn_pct = (int)wl_range(0, 70), batch = (int)wl_range(1, 4);
     spawn_budget = wl_range(0, tier() ? 400 : 120);
+    pingpong = wl_chance(45) && hw >= 2;
+    if (pingpong) {   // a single unit hopping between few threads: the classical hard case (late transfer to a thread that already looked)
+      n = (int)wl_range(2, std::min(hw, 4)); units = (int)wl_range(1, 2); spawn_pct = (int)wl_range(85, 100); batch = 1; spawn_budget = wl_range(3, 60);
+    }
+    nthreads = n;
     outstanding = 0; rounds = 0; ncalled = 0;
     for (int t = 0; t < MAXT; t++) { mailbox[t].store(0, std::memory_order_relaxed); called[t] = 0; unreported[t] = 0; seen_term[t] = 0; rng[t] = vsim_wl_rand() | 1; }
-    for (int u = 0; u < units; u++) { int dst = wl_chance(40) ? 0 : (int)wl_range(0, n - 1); mailbox[dst].fetch_add(1, std::memory_order_relaxed); outstanding++; }
+    for (int u = 0; u < units; u++) { int dst = (wl_chance(40) || pingpong) ? 0 : (int)wl_range(0, n - 1); mailbox[dst].fetch_add(1, std::memory_order_relaxed); outstanding++; }
     int bound = 2 * (3 * n + 6);
     gsb::TerminationDetection* term;
     if (which) { tree.setup(n); term = &tree; } else term = &gsb::getSystemTermination(n);
